@@ -70,6 +70,13 @@ func (p *JSONParser) Parse(jsonString string) (*core.Payload, error) {
 		)
 	}
 
+	// NOTE: a null element of a JSON array is decoded into a nil pointer inside a repeated field.
+	// Payload types do not admit nil elements, and the code generated to marshal the attributes
+	// into Any panics on them.
+	if containsNullArrayElement(jsonData) {
+		return nil, core.ErrParsingPayload.Wrap("json arrays cannot contain null elements")
+	}
+
 	pw := core.PayloadWrapper{}
 	err = types.UnmarshalJSON(p.cdc, []byte(jsonString), &pw)
 	if err != nil {
@@ -80,4 +87,25 @@ func (p *JSONParser) Parse(jsonString string) (*core.Payload, error) {
 	}
 
 	return pw.Orbiter, nil
+}
+
+// containsNullArrayElement returns true if the decoded JSON value contains, at any depth, an
+// array with a null element.
+func containsNullArrayElement(value any) bool {
+	switch v := value.(type) {
+	case map[string]any:
+		for _, element := range v {
+			if containsNullArrayElement(element) {
+				return true
+			}
+		}
+	case []any:
+		for _, element := range v {
+			if element == nil || containsNullArrayElement(element) {
+				return true
+			}
+		}
+	}
+
+	return false
 }
